@@ -758,39 +758,18 @@ func c12Issue(ctx context.Context, c *Client, op *cop, specs map[string]*PoolSpe
 	case "compact":
 		commit, err = c.API.Compact(ctx, pool, op.Branch, parse(op.Objs), false, commitMsg)
 	case "vector-add":
-		var name string
-		if cfg, e2 := c.Root.ListPools(ctx); e2 == nil {
-			for _, p := range cfg {
-				if p.ID == pool {
-					name = p.Name
-				}
-			}
-		}
-		if name == "" {
-			err = fmt.Errorf("pool not found")
-		} else {
-			commit, err = c.API.AddVectors(ctx, name, op.Branch, parse(op.Objs), commitMsg)
-		}
+		// The pool is addressed by its ID (the API resolves an ID string
+		// before it tries names): one lake operation, not a name lookup
+		// followed by one, which would not be a single operation of the
+		// history (the name may pass to another pool in between).
+		commit, err = c.API.AddVectors(ctx, op.Pool, op.Branch, parse(op.Objs), commitMsg)
 	case "query":
-		var name string
-		cfg, e2 := c.Root.ListPools(ctx)
-		err = e2
-		for _, p := range cfg {
-			if p.ID == pool {
-				name = p.Name
-			}
-		}
-		if err == nil && name == "" {
-			err = fmt.Errorf("pool not found")
-		}
-		if err == nil {
-			vals, qerr := c.Query(ctx, fmt.Sprintf("from %s@%s", name, op.Branch))
-			err = qerr
-			if qerr == nil {
-				op.Result = sortedCopy(Us(vals))
-				if op.Result == nil {
-					op.Result = []int{}
-				}
+		vals, qerr := c.Query(ctx, fmt.Sprintf("from %s@%s", op.Pool, op.Branch))
+		err = qerr
+		if qerr == nil {
+			op.Result = sortedCopy(Us(vals))
+			if op.Result == nil {
+				op.Result = []int{}
 			}
 		}
 	case "pool-create":
